@@ -329,7 +329,7 @@ impl Property for C08 {
         vec!["POSIX sh, printf, rm, mkdir available; worker-private working directory; ring SHA-256 for the snapshot".into()]
     }
     fn cases(tier: Tier) -> u64 {
-        tier.pick(2_000, 60_000)
+        tier.pick(4_000, 60_000)
     }
     fn strategy(_tier: Tier) -> BoxedStrategy<Spec> {
         let stage = prop_oneof![
@@ -478,7 +478,7 @@ impl Property for C08 {
         0.3
     }
     fn class_floors() -> Vec<(&'static str, f64)> {
-        vec![("clause1:pre-inspection-failure", 0.2), ("clause2:nonzero-exit", 0.1), ("clause3:reference-rejects", 0.03)]
+        vec![("clause1:pre-inspection-failure", 0.2), ("clause2:nonzero-exit", 0.08), ("clause3:reference-rejects", 0.01)]
     }
     fn max_shrink_iters() -> u32 {
         300
